@@ -15,6 +15,10 @@
 (*             out = new image (scale 2^ik), pg = prior gradient at the old  *)
 (*             image (scale 2^gk), L0/L1 = log-likelihood before/after       *)
 (*             (scale 2^lk), bh/bl = raw float bits of the new image         *)
+(*   Scale     exact mode: the sub-iteration of the Step line above repeated *)
+(*             with image and additive term times 2^ki or data times 2^kd:   *)
+(*             raw bits of the new image, and the new image with the data     *)
+(*             scale taken out again in the form of Step.out                  *)
 (*   Final     free mode: bits of the image in memory after the run          *)
 (*   Resume    restart from the file saved after k: bits of the image read   *)
 (*             (from) and of the image after set_up (after); variant 0 =     *)
@@ -27,13 +31,15 @@
 (*             the previous Instance after one setting was changed through   *)
 (*             the setters and a new set_up): the re-used objects' run must  *)
 (*             be the fresh objects' run                                     *)
+(*             5 = (k = 0) fresh objects started from 2^ks times the start   *)
+(*             image (no additive term, prior, filters)                      *)
 (*   Cont      an image saved by the resumed run after sub-iteration j       *)
 (* Unexplained lines are collected with a class: "new" (violation),          *)
 (* "domain" (the step is outside the range in which TLC can evaluate the     *)
 (* update law: counted by the runner, not a verdict) or the id of a known    *)
 (* finding.                                                                  *)
 EXTENDS OSMAPOSL, TraceLib
-VARIABLES l, sys, I, st, ready, cur, curL, saved, res, bad, cnt
+VARIABLES l, sys, I, st, ready, cur, curL, saved, res, base, bad, cnt
 
 NoSys == [id |-> 0]
 NoInst == [sysid |-> -1]
@@ -66,7 +72,7 @@ StepShape(r) ==
   /\ Has(r, "out") /\ Len(r.out) = sys.nv /\ Has(r, "L1") /\ Has(r, "verr") /\ ~r.verr
   /\ r.k \in 1..I.K
   /\ (I.prior # 0 => Has(r, "pg") /\ Len(r.pg) = sys.nv /\ ~Has(r, "pgerr"))
-  /\ IF I.mode = "exact" THEN Has(r, "lam") /\ Has(r, "y") /\ Has(r, "L0") /\ ExactStep(sys, I, r.lam, r.y)
+  /\ IF I.mode = "exact" THEN Has(r, "lam") /\ Has(r, "y") /\ Has(r, "L0") /\ ExactStep(sys, I, r.lam, r.y) /\ BitsOk(r, "bh", "bl")
      ELSE BitsOk(r, "bh", "bl") /\ cur # <<>> /\ (r.k - 1) \in DOMAIN saved /\ r.k \notin DOMAIN saved
 
 (* <<class, law evaluated, log-likelihood clause evaluated, count clause evaluated>> (the last three 0/1, for the runner's counts) *)
@@ -105,21 +111,39 @@ StepClass(r) ==
        THEN (IF PreservesCounts(sys, I, st, y, r.out, 1) THEN << "ok", 1, ll, 1 >> ELSE << "new", 1, ll, 1 >>)
   ELSE << "ok", 1, ll, 0 >>
 
+(* ---- the same sub-iteration at another scale --------------------------------------------------- *)
+NoBase == [k |-> -1]
+BaseOf(r) == [k |-> r.k, lam |-> r.lam, y |-> r.y, bits |-> Bits(r.bh, r.bl)]
+(* <<class, count clause evaluated>> *)
+ScaleClass(r) ==
+  IF ~(I # NoInst /\ ready /\ I.mode = "exact" /\ base # NoBase /\ r.k = base.k /\ Has(r, "err") /\ ~r.err
+       /\ BitsOk(r, "bh", "bl") /\ Has(r, "out") /\ Len(r.out) = sys.nv /\ (r.ki # 0 \/ r.kd # 0)
+       /\ ScaleApplies(I, r.ki, r.kd, NoAdditive)) THEN << "new", 0 >>
+  ELSE IF ~(ScaleDomain(sys, I, base.lam, base.y, r.ki, r.kd) /\ ShiftAllOk(base.bits, r.kd)) THEN << "domain", 0 >>
+  \* (S1), (S2): the new image is the one of the unscaled sub-iteration times 2^kd, bit for bit
+  ELSE IF Bits(r.bh, r.bl) # ShiftBits(base.bits, r.kd) THEN << "new", 0 >>
+  \* "... equals the total of the measured counts after every full-data update" at every scale
+  ELSE IF I.N = 1 /\ I.prior = 0 /\ NoAdditive /\ CountsSeen(sys, I, [v \in 1..sys.nv |-> base.lam[v]], base.y)
+       THEN (IF PreservesCounts(sys, I, st, base.y, r.out, 1) THEN << "ok", 1 >> ELSE << "new", 1 >>)
+  ELSE << "ok", 0 >>
+
 (* ---- restart --------------------------------------------------------------------------------- *)
 NoRes == [k |-> -1, variant |-> -1, changed |-> FALSE]
 ResumeShape(r) ==
   /\ I # NoInst /\ ready /\ I.mode = "free" /\ Has(r, "err") /\ ~r.err
-  /\ r.variant \in 0..4 /\ r.k \in DOMAIN saved /\ (IF r.variant >= 3 THEN r.k = 0 ELSE r.k >= 1) /\ r.k < I.K
+  /\ r.variant \in 0..5 /\ r.k \in DOMAIN saved /\ (IF r.variant >= 3 THEN r.k = 0 ELSE r.k >= 1) /\ r.k < I.K
+  \* variant 5: the start image times 2^ks; the run does not depend on it without additive term, prior and filters (S1)
+  /\ (r.variant = 5 => Has(r, "ks") /\ r.ks \in 1..24 /\ ScaleApplies(I, r.ks, 0, NoAdditive) /\ NoAdditive /\ ShiftAllOk(saved[0], r.ks))
   /\ BitsOk(r, "fromh", "froml") /\ BitsOk(r, "afterh", "afterl")
 ResumeClass(r) ==
   IF ~ResumeShape(r) THEN "new"
   \* the file read back is the image that was saved
-  ELSE IF Bits(r.fromh, r.froml) # saved[r.k] THEN "new"
+  ELSE IF Bits(r.fromh, r.froml) # (IF r.variant = 5 THEN ShiftBits(saved[0], r.ks) ELSE saved[r.k]) THEN "new"
   \* set_up leaves the image alone, except that "the program will set all non-positive voxel values in the initial
   \* estimate to small positive ones" when the positivity condition is enforced (variant 0: as configured); leaving
   \* them alone on a resume is accepted as well (that is what the restart clause needs, see notes/C07-fix-1.diff)
   ELSE IF \A v \in 1..sys.nv :
-            IF Positive(r.fromh[v], r.froml[v]) \/ ~(r.variant \in {0, 3, 4} /\ I.eip)
+            IF Positive(r.fromh[v], r.froml[v]) \/ ~(r.variant \in {0, 3, 4, 5} /\ I.eip)
             THEN r.afterh[v] = r.fromh[v] /\ r.afterl[v] = r.froml[v]
             ELSE Positive(r.afterh[v], r.afterl[v]) \/ (r.afterh[v] = r.fromh[v] /\ r.afterl[v] = r.froml[v])
        THEN "ok" ELSE "new"
@@ -147,6 +171,7 @@ Class(r) ==
          IF I # NoInst /\ ready /\ I.mode = "free" /\ Has(r, "out") /\ Len(r.out) = sys.nv /\ NonNegative(r.out) /\ ~r.verr
             /\ BitsOk(r, "bh", "bl") /\ saved = <<>> THEN "ok" ELSE "new"
     [] r.e = "Step" -> StepClass(r)[1]
+    [] r.e = "Scale" -> ScaleClass(r)[1]
     [] r.e = "Final" ->
          IF I # NoInst /\ ready /\ I.mode = "free" /\ BitsOk(r, "bh", "bl") /\ I.K \in DOMAIN saved /\ Bits(r.bh, r.bl) = saved[I.K]
          THEN "ok" ELSE "new"
@@ -155,7 +180,7 @@ Class(r) ==
     [] r.e = "End" -> IF r.lines >= l - 1 THEN "ok" ELSE "new"      \* (traces are validated in chunks: l counts from the chunk start)
     [] OTHER -> "new"                                                \* RunError, Abort, anything unknown
 
-Init == l = 1 /\ sys = NoSys /\ I = NoInst /\ st = <<>> /\ ready = FALSE /\ cur = <<>> /\ curL = 0 /\ saved = <<>> /\ res = NoRes /\ bad = <<>> /\ cnt = << 0, 0, 0, 0, 0, 0, 0 >>
+Init == l = 1 /\ sys = NoSys /\ I = NoInst /\ st = <<>> /\ ready = FALSE /\ cur = <<>> /\ curL = 0 /\ saved = <<>> /\ res = NoRes /\ base = NoBase /\ bad = <<>> /\ cnt = << 0, 0, 0, 0, 0, 0, 0 >>
 
 Next ==
   /\ l <= Len(TraceLog)
@@ -164,14 +189,16 @@ Next ==
          stepOk == r.e = "Step" /\ StepShape(r)
      IN
      \* unexplained lines are collected (all "new" ones up to 300; of every other class the first 40), and counted
-     /\ LET sc == IF r.e = "Step" THEN StepClass(r) ELSE << Class(r), 0, 0, 0 >>
+     /\ LET sc == IF r.e = "Step" THEN StepClass(r)
+               ELSE IF r.e = "Scale" THEN (LET q == ScaleClass(r) IN << q[1], 0, 0, q[2] >>)
+               ELSE << Class(r), 0, 0, 0 >>
             c == sc[1]
             other == IF c \in {"ok", "new", "domain"} THEN 0 ELSE 1
         IN /\ bad' = IF c = "ok" THEN bad
                      ELSE IF c = "new" THEN (IF cnt[7] < 300 THEN Append(bad, << l, c >>) ELSE bad)
                      ELSE IF (c = "domain" /\ cnt[5] < 40) \/ (other = 1 /\ cnt[6] < 40) THEN Append(bad, << l, c >>) ELSE bad
            \* steps with the law evaluated, log-likelihood clauses, count clauses, restart comparisons, domain, known findings, new
-           /\ cnt' = << cnt[1] + sc[2], cnt[2] + sc[3], cnt[3] + sc[4], cnt[4] + (IF r.e = "Cont" /\ c = "ok" THEN 1 ELSE 0),
+           /\ cnt' = << cnt[1] + sc[2], cnt[2] + sc[3], cnt[3] + sc[4], cnt[4] + (IF r.e \in {"Cont", "Scale"} /\ c = "ok" THEN 1 ELSE 0),
                         cnt[5] + (IF c = "domain" THEN 1 ELSE 0), cnt[6] + other, cnt[7] + (IF c = "new" THEN 1 ELSE 0) >>
      /\ sys' = IF r.e = "System" THEN SysOf(r) ELSE sys
      /\ I' = IF r.e = "Instance" THEN (IF newI THEN InstOf(r, sys) ELSE NoInst)
@@ -186,9 +213,10 @@ Next ==
      /\ saved' = IF r.e \in {"System", "Instance"} THEN <<>>
                  ELSE IF r.e = "Start" /\ Has(r, "bh") /\ Has(r, "bl") THEN (0 :> Bits(r.bh, r.bl))
                  ELSE IF stepOk /\ I.mode = "free" THEN (r.k :> Bits(r.bh, r.bl)) @@ saved ELSE saved
+     /\ base' = IF stepOk /\ I.mode = "exact" THEN BaseOf(r) ELSE IF r.e = "Scale" THEN base ELSE NoBase
      /\ res' = IF r.e = "Resume" THEN ResOf(r) ELSE IF r.e \in {"System", "Instance"} THEN NoRes ELSE res
   /\ l' = l + 1
-Spec == Init /\ [][Next]_<<l, sys, I, st, ready, cur, curL, saved, res, bad, cnt>>
+Spec == Init /\ [][Next]_<<l, sys, I, st, ready, cur, curL, saved, res, base, bad, cnt>>
 
 \* evaluated in the final state only (no successor): prints the unexplained lines
 Done == l > Len(TraceLog) => (PrintT(<<"COUNTS", cnt>>) /\ (bad = <<>> \/ PrintT(<<"UNEXPLAINED", bad>>)))
